@@ -473,8 +473,9 @@ class WebSocket(object):
         if not isinstance(data, bytes):
             raise TypeError('data argument must be bytes')
         if compress and self.state.compression:
-            _payload = self.state.compression.compress(data)
-            self.session.send_compressed(Opcode.BINARY, _payload)
+            self.session.send_compressed(
+                Opcode.BINARY, data, self.state.compression.compress
+            )
         else:
             self.session.send(Opcode.BINARY, data)
 
@@ -517,8 +518,9 @@ class WebSocket(object):
             raise TypeError('text argument must not be bytes')
         payload = text.encode('utf-8')
         if compress and self.state.compression:
-            _payload = self.state.compression.compress(payload)
-            self.session.send_compressed(Opcode.TEXT, _payload)
+            self.session.send_compressed(
+                Opcode.TEXT, payload, self.state.compression.compress
+            )
         else:
             self.session.send(Opcode.TEXT, payload)
 
